@@ -2,6 +2,7 @@ SPECIFICATION Spec
 CONSTANTS
   NV = 2
   StabV = {}
+  HasHf = FALSE
   NP = 2
   UseQueue = FALSE
   SkipQueue = FALSE
@@ -31,4 +32,5 @@ PROPERTY C03_Green
 PROPERTY C08_FF
 PROPERTY C08_Foreign
 PROPERTY C12_Held
+PROPERTY C20_EntryFate
 CHECK_DEADLOCK FALSE
